@@ -623,6 +623,52 @@ def or_flag_ok(keep_isolated_nodes=True, keep_nodes=None):
     if keep_nodes is not None:
         keep_isolated_nodes = keep_nodes
     return keep_isolated_nodes
+
+
+def or_get(record, name):
+    metadata = record.get("metadata") or {}
+    return metadata.get(name) or record.get(name)
+
+
+def or_get_ok(record, name):
+    metadata = record.get("metadata") or {}
+    return metadata[name] if name in metadata else record.get(name)
+
+
+def hashable_dispatch(values):
+    from collections.abc import Hashable
+
+    return [values] if isinstance(values, Hashable) else list(values)
+
+
+def hashable_dispatch_ok(values):
+    return [values] if isinstance(values, str) else list(values)
+
+
+def pair_len():
+    from hypergraphx import DirectedHypergraph
+
+    h = DirectedHypergraph()
+    return sorted(h.get_edges(), key=len)
+
+
+def pair_len_ok():
+    from hypergraphx import DirectedHypergraph
+
+    h = DirectedHypergraph()
+    return sorted(h.get_edges(), key=lambda e: len(e[0]) + len(e[1]))
+
+
+def empty_none(d=None):
+    if d is None or len(d) == 0:
+        d = [2, 3]
+    return d
+
+
+def empty_none_ok(d=None):
+    if d is None:
+        d = [2, 3]
+    return d
 '''
 
 _PROBE_EXPECT = {
@@ -686,6 +732,14 @@ _PROBE_EXPECT = {
     "role_mem_ok": ("K-ROLEMEM", False),
     "or_flag": ("G-ORFLAG", True),
     "or_flag_ok": ("G-ORFLAG", False),
+    "or_get": ("G-ORGET", True),
+    "or_get_ok": ("G-ORGET", False),
+    "hashable_dispatch": ("G-HASHABLE", True),
+    "hashable_dispatch_ok": ("G-HASHABLE", False),
+    "pair_len": ("K-PAIRLEN", True),
+    "pair_len_ok": ("K-PAIRLEN", False),
+    "empty_none": ("G-EMPTYNONE", True),
+    "empty_none_ok": ("G-EMPTYNONE", False),
 }
 
 
@@ -697,7 +751,7 @@ def lint_pack_controls(repo: str) -> dict:
     from .effects import check_shared_literals
     from .report import Result
 
-    fns = {"G-STALE": L.check_stale_in_loop, "G-REUSE": L.check_iterator_reuse, "N-FANCYAUG": L.check_fancy_augassign, "G-GROUPBY": L.check_groupby_sorted, "E-SHARED": check_shared_literals, "G-LIVEITER": L.check_mutation_while_iterating, "E-DEFAULTARG": L.check_mutable_defaults, "G-KEYPROJ": L.check_key_projection, "K-OWNER": L.check_id_owner, "G-COUNTERADD": L.check_counter_arith, "G-ZEROBUCKET": L.check_zero_buckets, "G-LENVALID": L.check_len_validated_cache, "G-SHAPEGUESS": L.check_layout_guess, "K-LABELTYPE": L.check_label_type_dispatch, "G-ZIPALIGN": L.check_zip_alignment, "G-TRUTHY0": L.check_truthy_index, "G-PYTRAP": L.check_python_traps, "G-LOSSYKEY": L.check_lossy_keys, "G-TRISTATE": L.check_tristate_flag, "N-TRACEMUL": L.check_trace_of_elementwise, "G-REUSEDREC": L.check_reused_record, "G-LOOPLEAK": L.check_loop_leak, "G-ACCRESET": L.check_accumulator_reset, "G-ARGSWAP": L.check_swapped_arguments, "K-SORTPAIR": L.check_sorted_pair, "K-ROLEMEM": L.check_role_membership, "G-ORFLAG": L.check_or_merged_flag}
+    fns = {"G-STALE": L.check_stale_in_loop, "G-REUSE": L.check_iterator_reuse, "N-FANCYAUG": L.check_fancy_augassign, "G-GROUPBY": L.check_groupby_sorted, "E-SHARED": check_shared_literals, "G-LIVEITER": L.check_mutation_while_iterating, "E-DEFAULTARG": L.check_mutable_defaults, "G-KEYPROJ": L.check_key_projection, "K-OWNER": L.check_id_owner, "G-COUNTERADD": L.check_counter_arith, "G-ZEROBUCKET": L.check_zero_buckets, "G-LENVALID": L.check_len_validated_cache, "G-SHAPEGUESS": L.check_layout_guess, "K-LABELTYPE": L.check_label_type_dispatch, "G-ZIPALIGN": L.check_zip_alignment, "G-TRUTHY0": L.check_truthy_index, "G-PYTRAP": L.check_python_traps, "G-LOSSYKEY": L.check_lossy_keys, "G-TRISTATE": L.check_tristate_flag, "N-TRACEMUL": L.check_trace_of_elementwise, "G-REUSEDREC": L.check_reused_record, "G-LOOPLEAK": L.check_loop_leak, "G-ACCRESET": L.check_accumulator_reset, "G-ARGSWAP": L.check_swapped_arguments, "K-SORTPAIR": L.check_sorted_pair, "K-ROLEMEM": L.check_role_membership, "G-ORFLAG": L.check_or_merged_flag, "G-ORGET": L.check_falsy_fallback, "G-HASHABLE": L.check_hashable_dispatch, "K-PAIRLEN": L.check_len_of_pair, "G-EMPTYNONE": L.check_empty_as_missing}
     ctx = Ctx(repo, "quick", overrides={_PROBE_REL: _PROBE_SRC})
     out = {"controls": [], "broken": []}
     for name, (rule, must) in _PROBE_EXPECT.items():
